@@ -3,7 +3,7 @@
 use crate::stages;
 use baa::{BitVecOps, BitVecValue};
 use patronus::expr::{Context, ExprRef, SymbolValueStore, eval_array_expr, eval_bv_expr, eval_expr};
-use pvcore::bv::{Bv, Val};
+use pvcore::bv::{Arr, Bv, Val};
 use pvcore::evalref::*;
 use pvcore::run::*;
 use pvcore::sweep::*;
@@ -138,6 +138,56 @@ fn check_once(t: &T, with_extras: bool) -> Option<(String, String)> {
                         }
                     }
                     Err(p) => return Some((format!("panic-eval_array_expr|{}", p.file()), format!("eval_array_expr panicked: {} on {}", p.msg, t))),
+                }
+            }
+            // store histories: a SymbolValueStore whose symbols were first defined with OTHER values (all bits
+            // flipped, so wide symbols have their upper words set) and then updated in reverse order through
+            // update_bv / update_array / update; then cleared and re-defined in reverse order
+            {
+                let other: Vec<Val> = vals
+                    .iter()
+                    .map(|v| match v {
+                        Val::B(b) => Val::B(b.not()),
+                        Val::A(a) => {
+                            let m = pvcore::bv::mask(a.dw);
+                            Val::A(Arr { iw: a.iw, dw: a.dw, default: &m ^ &a.default, map: a.map.iter().map(|(k, d)| (k.clone(), &m ^ d)).collect() })
+                        }
+                    })
+                    .collect();
+                let (mut st, refs) = store_for(&mut ctx, &syms, &other, false);
+                for (i, (r, v)) in refs.iter().zip(vals.iter()).enumerate().rev() {
+                    match v {
+                        Val::B(b) if i % 2 == 0 => st.update_bv(*r, &bv_to_baa(b)),
+                        Val::B(b) => st.update(*r, baa::Value::BitVec(bv_to_baa(b))),
+                        Val::A(a) if i % 2 == 0 => st.update_array(*r, arr_to_baa(a, false)),
+                        Val::A(a) => st.update(*r, baa::Value::Array(arr_to_baa(a, true))),
+                    }
+                }
+                match catch(|| eval_expr(&ctx, &st, e)) {
+                    Ok(v) => {
+                        if baa_to_val(&v) != expected {
+                            return Some((
+                                "value-store-updated".into(),
+                                format!("eval_expr of {} over a SymbolValueStore whose symbols were defined with other values and then updated to {} gives {} instead of {}", t, show_assignment(&syms, vals), baa_to_val(&v).show(), expected.show()),
+                            ));
+                        }
+                    }
+                    Err(p) => return Some((format!("panic-store-updated|{}", p.file()), format!("eval_expr over an updated SymbolValueStore panicked: {} on {}", p.msg, t))),
+                }
+                st.clear();
+                for (r, v) in refs.iter().zip(vals.iter()).rev() {
+                    match v {
+                        Val::B(b) => st.define_bv(*r, &bv_to_baa(b)),
+                        Val::A(a) => st.define_array(*r, arr_to_baa(a, false)),
+                    }
+                }
+                match catch(|| eval_expr(&ctx, &st, e)) {
+                    Ok(v) => {
+                        if baa_to_val(&v) != expected {
+                            return Some(("value-store-cleared".into(), format!("eval_expr of {} over a cleared and re-defined SymbolValueStore differs from the reference with {}", t, show_assignment(&syms, vals))));
+                        }
+                    }
+                    Err(p) => return Some((format!("panic-store-cleared|{}", p.file()), format!("eval_expr over a cleared and re-defined SymbolValueStore panicked: {} on {}", p.msg, t))),
                 }
             }
             if syms.iter().all(|(_, t)| matches!(t, Ty::Bv(_))) {
